@@ -143,6 +143,14 @@ def check_C04(ctx):
         root["policy"] = 0
         for c in cmds:
             c["before"], c["after"] = {"k": "ret"}, {"k": "ret"}
+        # two siblings may list the same alias: the one declared first is the one it addresses (a later sibling is given the
+        # word by which the path addresses its elder)
+        if len(cmds) > 1 and rng.random() < 0.12:
+            k_ = rng.randrange(1, len(cmds))
+            sibs = cmds[k_ - 1]["subs"]
+            later = sibs[[id(x) for x in sibs].index(id(cmds[k_])) + 1:]
+            if later:
+                rng.choice(later)["name"] += " " + path[k_ - 1]
         argv = flat_argv(path, per_level)
         # the application may declare a version flag whose name a sub-command uses for an option of its own: only as the
         # FIRST argument is it a version request
@@ -161,7 +169,8 @@ def check_C04(ctx):
         # empty line), then the invocation proper is run on the same object
         # (the first run must not print the root's help, which would run the initialisers of the sub-commands declared
         # so far -- Q10 --: the root has an Action and is given, for that run, a spec that accepts the empty line)
-        if root["subs"] and root.get("action") and rng.random() < 0.3:
+        all_al = [a for s_ in root["subs"] for a in s_["name"].split()]
+        if root["subs"] and root.get("action") and rng.random() < 0.3 and len(all_al) == len(set(all_al)):     # (late declarations change the order of the siblings)
             for sc_ in root["subs"]:
                 if rng.random() < 0.6:
                     sc_["late"] = True
@@ -600,7 +609,8 @@ def value_cases(ctx):
                     for envs in combos:
                         for ncli in (0, 1, 2, 3):
                             cli = [rng.choice(valid) for _ in range(ncli)]
-                            names = ["VE%d" % i for i in range(nenv)]
+                            # (a name may hold any byte but '=' and NUL: dots, dashes, slashes, colons are part of it)
+                            names = [(["VE%d", "ve.%d", "app-port%d", "a/b%d", "x:y%d", "VE%d"][rng.randrange(6)]) % i for i in range(nenv)]
                             # the names of an EnvVar list are separated by any white space
                             sep = rng.choice([" ", " ", " ", "\t", "\n", "  ", " \t ", "\xc2\xa0", "\xe2\x80\xa8"])
                             d = (gen.mkopt if isopt else gen.mkarg)(kind, "x val" if isopt else "ARG", env=sep.join(names),
@@ -974,6 +984,12 @@ def check_C16(ctx):
             rep = 2 if rng.random() < 0.3 and not any(d["kind"] == "custom" for d in decls) else 1
             cases.append({"op": "run", "env": env, "version": None, "root": r1, "argv": argv, "repeat": rep})
             cases.append({"op": "run", "env": env, "version": None, "root": r2, "argv": argv, "repeat": rep})
+            # a long-lived application object: the last declarations are made after a first run (on the empty line); the
+            # synthesised spec of the second run covers them like the others
+            if rep == 1 and len(decls) > 1 and rng.random() < 0.25 and not env:
+                for d_ in r1["decls"][-rng.randint(1, len(decls) - 1):]:
+                    d_["late"] = True
+                cases[-2]["before"] = {"spec": "", "argv": []}
     res = correspond(ctx, cases, ALL, "implicit and explicit spec")
     for i, explicit in pairs:
         a1, _ = res[cases[i]["id"]]
